@@ -259,6 +259,128 @@ pub mod plain_b_variant_renamed {
     }
 }
 
+pub mod plain_r1_reordered {
+    // COMPATIBLE sibling of r1: the same methods, declared in another order (methods are matched by name)
+    use savefile_derive::{savefile_abi_exportable, Savefile};
+    #[derive(Savefile)]
+    pub struct Point {
+        pub x: u32,
+        #[savefile_versions = "1.."]
+        pub y: u32,
+    }
+    #[derive(Savefile)]
+    pub enum Kind {
+        A,
+        B,
+    }
+    #[savefile_abi_exportable(version = 1)]
+    pub trait Ledger {
+        fn sub(&self, x: u32, y: u32) -> u32;
+        fn kind(&self, k: Kind) -> u8;
+        fn name(&self) -> String;
+        fn add(&self, x: u32, y: u32) -> u32;
+        fn put(&self, p: Point) -> u32;
+    }
+}
+pub mod plain_b_renamed {
+    // BREAKING sibling of r1: method `add` renamed to `plus` (same position, same signature): `add` is gone
+    use savefile_derive::{savefile_abi_exportable, Savefile};
+    #[derive(Savefile)]
+    pub struct Point {
+        pub x: u32,
+        #[savefile_versions = "1.."]
+        pub y: u32,
+    }
+    #[derive(Savefile)]
+    pub enum Kind {
+        A,
+        B,
+    }
+    #[savefile_abi_exportable(version = 1)]
+    pub trait Ledger {
+        fn plus(&self, x: u32, y: u32) -> u32;
+        fn name(&self) -> String;
+        fn put(&self, p: Point) -> u32;
+        fn kind(&self, k: Kind) -> u8;
+        fn sub(&self, x: u32, y: u32) -> u32;
+    }
+}
+pub mod plain_b_swapped_names {
+    // BREAKING sibling of r1: `add` and `sub` keep their positions but `name` and `put` swap NAMES (so the method
+    // count and every position's signature set is unchanged, but name -> signature is not)
+    use savefile_derive::{savefile_abi_exportable, Savefile};
+    #[derive(Savefile)]
+    pub struct Point {
+        pub x: u32,
+        #[savefile_versions = "1.."]
+        pub y: u32,
+    }
+    #[derive(Savefile)]
+    pub enum Kind {
+        A,
+        B,
+    }
+    #[savefile_abi_exportable(version = 1)]
+    pub trait Ledger {
+        fn add(&self, x: u32, y: u32) -> u32;
+        fn put(&self) -> String;
+        fn name(&self, p: Point) -> u32;
+        fn kind(&self, k: Kind) -> u8;
+        fn sub(&self, x: u32, y: u32) -> u32;
+    }
+}
+pub mod plain_b_variant_inserted {
+    // BREAKING sibling of r1: a variant that exists from version 1 is inserted BEFORE an existing variant: at version 0
+    // the variant names are unchanged but Kind::B's wire tag moves from 1 to 2
+    use savefile_derive::{savefile_abi_exportable, Savefile};
+    #[derive(Savefile)]
+    pub struct Point {
+        pub x: u32,
+        #[savefile_versions = "1.."]
+        pub y: u32,
+    }
+    #[derive(Savefile)]
+    pub enum Kind {
+        A,
+        #[savefile_versions = "1.."]
+        Mid,
+        B,
+    }
+    #[savefile_abi_exportable(version = 1)]
+    pub trait Ledger {
+        fn add(&self, x: u32, y: u32) -> u32;
+        fn name(&self) -> String;
+        fn put(&self, p: Point) -> u32;
+        fn kind(&self, k: Kind) -> u8;
+        fn sub(&self, x: u32, y: u32) -> u32;
+    }
+}
+pub mod plain_r1_variant_appended {
+    // COMPATIBLE sibling of r1: a variant that exists from version 1 is APPENDED (existing tags keep their values)
+    use savefile_derive::{savefile_abi_exportable, Savefile};
+    #[derive(Savefile)]
+    pub struct Point {
+        pub x: u32,
+        #[savefile_versions = "1.."]
+        pub y: u32,
+    }
+    #[derive(Savefile)]
+    pub enum Kind {
+        A,
+        B,
+        #[savefile_versions = "1.."]
+        Last,
+    }
+    #[savefile_abi_exportable(version = 1)]
+    pub trait Ledger {
+        fn add(&self, x: u32, y: u32) -> u32;
+        fn name(&self) -> String;
+        fn put(&self, p: Point) -> u32;
+        fn kind(&self, k: Kind) -> u8;
+        fn sub(&self, x: u32, y: u32) -> u32;
+    }
+}
+
 fn plain_view_r0(_v: u32) -> Vec<(&'static str, &'static str)> {
     vec![("add", "(u32,u32)->u32"), ("name", "()->String"), ("put", "(Point{x:u32})->u32"), ("kind", "(Kind{A,B})->u8")]
 }
@@ -295,6 +417,20 @@ fn plain_view_b_v1_only(v: u32) -> Vec<(&'static str, &'static str)> {
 }
 fn plain_view_b_variant(v: u32) -> Vec<(&'static str, &'static str)> {
     plain_view_r1(v).into_iter().map(|m| if m.0 == "kind" { ("kind", "(Kind{A,Bee})->u8") } else { m }).collect()
+}
+
+fn plain_view_b_renamed(v: u32) -> Vec<(&'static str, &'static str)> {
+    plain_view_r1(v).into_iter().map(|m| if m.0 == "add" { ("plus", m.1) } else { m }).collect()
+}
+fn plain_view_b_swapped_names(v: u32) -> Vec<(&'static str, &'static str)> {
+    plain_view_r1(v).into_iter().map(|m| if m.0 == "name" { ("put", m.1) } else if m.0 == "put" { ("name", m.1) } else { m }).collect()
+}
+fn plain_view_b_variant_inserted(v: u32) -> Vec<(&'static str, &'static str)> {
+    // the wire tag is part of what a peer at that version sees
+    plain_view_r1(v).into_iter().map(|m| if m.0 == "kind" { ("kind", if v == 0 { "(Kind{A=0,B=2})->u8" } else { "(Kind{A=0,Mid=1,B=2})->u8" }) } else { m }).collect()
+}
+fn plain_view_r1_variant_appended(v: u32) -> Vec<(&'static str, &'static str)> {
+    plain_view_r1(v).into_iter().map(|m| if m.0 == "kind" && v >= 1 { ("kind", "(Kind{A,B,Last})->u8") } else { m }).collect()
 }
 
 // ------------------------------------------------------------------------------------------------
@@ -935,6 +1071,11 @@ pub fn revisions() -> Vec<Rev> {
         rev!("plain", "plain_b_unversioned_field", 1, plain_view_b_unversioned, dyn plain_b_unversioned_field::Ledger, "BREAKING: Point.y added without a version range"),
         rev!("plain", "plain_b_v1_only", 2, plain_view_b_v1_only, dyn plain_b_v1_only::Ledger, "BREAKS VERSION 1 ONLY: the type of the removed field Point.y is u16 at version 1"),
         rev!("plain", "plain_b_variant_renamed", 1, plain_view_b_variant, dyn plain_b_variant_renamed::Ledger, "BREAKING: enum variant Kind::B renamed"),
+        rev!("plain", "plain_r1_reordered", 1, plain_view_r1, dyn plain_r1_reordered::Ledger, "compatible: the methods of r1 declared in another order"),
+        rev!("plain", "plain_b_renamed", 1, plain_view_b_renamed, dyn plain_b_renamed::Ledger, "BREAKING: method `add` renamed to `plus` (same position and signature)"),
+        rev!("plain", "plain_b_swapped_names", 1, plain_view_b_swapped_names, dyn plain_b_swapped_names::Ledger, "BREAKING: methods `name` and `put` swap names (count and positions unchanged)"),
+        rev!("plain", "plain_b_variant_inserted", 1, plain_view_b_variant_inserted, dyn plain_b_variant_inserted::Ledger, "BREAKING: versioned enum variant inserted before an existing variant (wire tag of Kind::B moves)"),
+        rev!("plain", "plain_r1_variant_appended", 1, plain_view_r1_variant_appended, dyn plain_r1_variant_appended::Ledger, "compatible: versioned enum variant appended"),
         rev!("async", "async_r0", 0, async_view_r0, dyn async_r0::ALedger, "initial revision (async_trait)"),
         rev!("async", "async_r1", 1, async_view_r1, dyn async_r1::ALedger, "compatible: new async method"),
         rev!("async", "async_b_sync", 0, async_view_b_sync, dyn async_b_sync::ALedger, "BREAKING: `get` no longer async"),
